@@ -448,6 +448,12 @@ func c16Table(p *Prog, r *Report) {
 		tab = append(tab, int(v))
 	}
 	r.Stat("decoder_table_entries", len(tab))
+	dsPairs := map[string]int{}
+	defer func() {
+		if os.Getenv("GOOMVET_DSPAIRS") != "" {
+			fmt.Println("DSPAIRS", dsPairs)
+		}
+	}()
 	opv := func(name string) int {
 		o, _ := pk.Types.Scope().Lookup(name).(*types.Const)
 		if o == nil {
@@ -479,7 +485,9 @@ func c16Table(p *Prog, r *Report) {
 		narg           int
 		setop          bool
 		consumed       bool // at least one opcode byte was consumed (pos >= 1)
+		ds             int  // operand size the path was selected for by xCondDataSize (0 = not selected)
 	}
+
 	type issue struct{ rule, msg string }
 	issues := map[string]string{}
 	add := func(key, msg string) {
@@ -536,6 +544,22 @@ func c16Table(p *Prog, r *Report) {
 					run(n, depth+1)
 				}
 				onStack[s.pc] = false
+			}
+			if s.ds != 0 && (strings.Contains(name, "Imm") || strings.HasPrefix(name, "xRead")) {
+				dsPairs[fmt.Sprintf("%d:%s", s.ds, name)]++
+				// an arm selected for one operand size reads and reports immediates of that size
+				bad := false
+				switch s.ds {
+				case 16:
+					bad = name == "xArgImm32" || name == "xArgImm64" || name == "xReadID" || name == "xReadId" || name == "xReadIo"
+				case 32:
+					bad = name == "xArgImm16" || name == "xArgImm64" || name == "xReadIw" || name == "xReadIo"
+				case 64:
+					bad = name == "xArgImm16" || name == "xReadIw"
+				}
+				if bad {
+					add("datasize", fmt.Sprintf("the %d-bit operand-size arm reaches %s at pc=%d: the immediate of that instruction is read with the wrong width, so its length is wrong and the following instructions are decoded out of step", s.ds, name, s.pc))
+				}
 			}
 			switch {
 			case name == "":
@@ -596,7 +620,28 @@ func c16Table(p *Prog, r *Report) {
 				}
 				branch(tab[pc], tab[pc+1])
 				return
-			case name == "xCondDataSize" || name == "xCondAddrSize":
+			case name == "xCondDataSize":
+				if !need(3) {
+					return
+				}
+				if onStack[s.pc] {
+					add("cycle", fmt.Sprintf("cycle through pc=%d", s.pc))
+					return
+				}
+				onStack[s.pc] = true
+				for k, t := range []int{tab[pc], tab[pc+1], tab[pc+2]} {
+					if !inRange(t) {
+						add("target", fmt.Sprintf("%s at pc=%d branches to %d outside the table", name, s.pc, t))
+						continue
+					}
+					n := s
+					n.pc = t
+					n.ds = []int{16, 32, 64}[k]
+					run(n, depth+1)
+				}
+				onStack[s.pc] = false
+				return
+			case name == "xCondAddrSize":
 				if !need(3) {
 					return
 				}
@@ -735,11 +780,12 @@ func c16Table(p *Prog, r *Report) {
 	run(st{pc: 1}, 0)
 	r.Stat("decoder_abstract_states", states)
 	r.Stat("decoder_terminal_states", terminals)
-	for _, key := range []string{"target", "operand", "cycle", "unknown", "setop", "narg", "rel", "imm", "modrm", "ismem"} {
+	for _, key := range []string{"target", "operand", "cycle", "unknown", "setop", "narg", "rel", "imm", "modrm", "ismem", "datasize"} {
 		desc := map[string]string{
 			"target": "all branch targets inside the table", "operand": "all operands inside the table", "cycle": "no cycle: every path terminates",
 			"unknown": "only known decode ops", "setop": "an opcode is set before every match", "narg": "at most 4 arguments per path",
 			"rel": "PC-relative arguments preceded by the read of a field of that width", "imm": "immediate/offset arguments preceded by their read", "modrm": "ModR/M-based arguments preceded by the ModR/M read", "ismem": "xCondIsMem only after a byte was consumed (its error path reads src[0])",
+			"datasize": "the arms of an operand-size dispatch read immediates of their own size",
 		}[key]
 		msg, bad := issues[key]
 		r.Check(!bad, "C16.R2", "decoder bytecode: "+desc, "internal/arch/x86asm/tables.go", fmt.Sprintf("verified over %d abstract states", states), "decoder bytecode table is malformed: "+msg)
